@@ -171,10 +171,29 @@ def parse_via(text, via="file", want=None):
         return Chart.from_file(io.StringIO(text), **kw)
     fd, path = tempfile.mkstemp(suffix=".chart")
     try:
-        with os.fdopen(fd, "wb") as f:
-            f.write((b"\xef\xbb\xbf" if via == "path-bom" else b"") + text.encode("utf-8"))
         from pathlib import Path
 
+        if via == "path-reuse":
+            # the file's identity says nothing about its content: another chart of the SAME byte length is written
+            # to the same path with the same modification time and read first; then the real text
+            import re
+
+            decoy = re.sub(r" = N ([0-4]) ", lambda m: " = N %d " % ((int(m.group(1)) + 1) % 5), text)
+            decoy = re.sub(r' = E "(.)', lambda m: ' = E "' + ("Z" if m.group(1) not in 'Z"' else "Y"), decoy)
+            decoy = re.sub(r" = E ([a-z])", lambda m: " = E " + ("z" if m.group(1) != "z" else "y"), decoy)
+            with os.fdopen(fd, "wb") as f:
+                f.write(decoy.encode("utf-8"))
+            os.utime(path, (1700000000, 1700000000))
+            try:
+                Chart.from_filepath(Path(path), **kw)
+            except Exception:  # noqa: BLE001 - the decoy's own fate is not what is observed
+                pass
+            with open(path, "wb") as f:
+                f.write(text.encode("utf-8"))
+            os.utime(path, (1700000000, 1700000000))
+            return Chart.from_filepath(Path(path), **kw)
+        with os.fdopen(fd, "wb") as f:
+            f.write((b"\xef\xbb\xbf" if via == "path-bom" else b"") + text.encode("utf-8"))
         return Chart.from_filepath(Path(path), **kw)
     finally:
         os.unlink(path)
